@@ -258,7 +258,7 @@ def c05_rho(EoN, rng, stats):
         for rho, nn in ((0.5, 5), (0.5, 3), (0.25, 6), (0.25, 2), (0.125, 4), (0.375, 4), (0.3, 5), (1.0, 4), (0.0, 3), (0.5, 7)):
             gc, kind = sir_graph(rng, name, nn)
             N = len(gc.order)
-            exp = int(round(F(N) * F(rho)))            # exact round-half-even
+            exp = int(round(N * rho))                 # as the property states it (Python floats; exact for the dyadic rho values, round half to even)
             seed = rng.randrange(10 ** 6); pyrandom.seed(seed); np.random.seed(seed)
             rp = {'sim': name, 'graph': gc.to_json(), 'rho': rho, 'seed': seed, 'checker': 'ic_sirb'}
             try:
